@@ -16,42 +16,49 @@ connection: nothing of the trace after it is performed.
 namespace Cppcms.C03
 open Cppcms
 
-/-- connection-side state: framing state of the protocol in use, write-path state, socket schedule -/
-structure Wire where
+/-- the framing state of the protocol in use -/
+structure Framer where
   proto : Proto
   http : HttpSt := { isHttp11 := false, clientKeepAlive := false }
   fcgi : FcgiSt := { reqId := 1 }
   scgi : ScgiSt := {}
+  deriving Inhabited
+
+/-- `format_output` of the protocol in use: new state, bytes, `protocol_violation` -/
+def Framer.format (f : Framer) (inp : Bytes) (eof : Bool) : Framer × Bytes × Bool :=
+  match f.proto with
+  | .scgi => ({ f with scgi := (scgiFormat f.scgi inp).1 }, (scgiFormat f.scgi inp).2, false)
+  | .fcgi => ({ f with fcgi := (fcgiFormat f.fcgi inp eof).1 }, (fcgiFormat f.fcgi inp eof).2, false)
+  | .http _ _ => ({ f with http := (httpFormat f.http inp eof).1 }, (httpFormat f.http inp eof).2.1, (httpFormat f.http inp eof).2.2)
+
+/-- `set_response_headers` of the protocol in use (`service.generate_http_headers` is off) -/
+def Framer.setHeaders (f : Framer) (h : Headers) : Framer :=
+  match f.proto with
+  | .scgi => { f with scgi := { headers := xcgiHeaders false h, headersWritten := false } }
+  | .fcgi => { f with fcgi := { f.fcgi with responseHeaders := xcgiHeaders false h, headersWritten := false } }
+  | .http _ _ => { f with http := f.http.setHeaders h }
+
+/-- connection-side state: framing, write path, socket schedule -/
+structure Wire where
+  fr : Framer
   conn : Conn := {}
   sched : List SchedItem := []
   /-- `format_output` raised `protocol_violation` (more body than the announced Content-Length) -/
   violated : Bool := false
   /-- a write failed: the device reset its `conn_`, later events are not performed -/
   gaveUp : Bool := false
-  /-- ghost: every `format_output(bytes, eof)` call, in order -/
+  /-- ghost: every `(bytes, eof)` the device handed to `write` / `nonblocking_write`, in order -/
   calls : List (Bytes × Bool) := []
-  /-- ghost: concatenation of the results of those calls -/
+  /-- ghost: concatenation of the results of all `format_output` calls -/
   outs : Bytes := []
   deriving Inhabited
 
-/-- `format_output` of the protocol in use -/
-def Wire.format (w : Wire) (inp : Bytes) (eof : Bool) : Wire × Bytes × Bool :=
-  match w.proto with
-  | .scgi => let r := scgiFormat w.scgi inp; ({ w with scgi := r.1 }, r.2, false)
-  | .fcgi => let r := fcgiFormat w.fcgi inp eof; ({ w with fcgi := r.1 }, r.2, false)
-  | .http _ _ => let r := httpFormat w.http inp eof; ({ w with http := r.1 }, r.2.1, r.2.2)
-
-/-- `format_output` with the ghost bookkeeping -/
+/-- `format_output` for a device call, with the ghost bookkeeping -/
 def Wire.formatLogged (w : Wire) (inp : Bytes) (eof : Bool) : Wire × Bytes × Bool :=
-  let r := w.format inp eof
-  ({ r.1 with calls := w.calls ++ [(inp, eof)], outs := if r.2.2 then w.outs else w.outs ++ r.2.1 }, r.2.1, r.2.2)
+  let r := w.fr.format inp eof
+  ({ w with fr := r.1, calls := w.calls ++ [(inp, eof)], outs := if r.2.2 then w.outs else w.outs ++ r.2.1 }, r.2.1, r.2.2)
 
-/-- `set_response_headers` of the protocol in use (`service.generate_http_headers` is off) -/
-def Wire.setHeaders (w : Wire) (h : Headers) : Wire :=
-  match w.proto with
-  | .scgi => { w with scgi := { headers := xcgiHeaders false h, headersWritten := false } }
-  | .fcgi => { w with fcgi := { w.fcgi with responseHeaders := xcgiHeaders false h, headersWritten := false } }
-  | .http _ _ => { w with http := w.http.setHeaders h }
+def Wire.setHeaders (w : Wire) (h : Headers) : Wire := { w with fr := w.fr.setHeaders h }
 
 /-- next answer of the socket for a `write_some` offering `total > 0` bytes.  On a blocking socket
 `w` cannot happen (the harness turns it into a one-byte accept). -/
@@ -107,10 +114,10 @@ def Wire.drain : Nat → Wire → Wire
 /-- `connection::async_write(empty, false, h)` followed by the event loop until `h` runs
 (the application continues only from the completion handler) -/
 def Wire.asyncWriteEmpty (w : Wire) : Wire :=
-  let r := w.formatLogged [] false
-  if r.2.2 then { r.1 with violated := true }
+  let r := w.fr.format [] false
+  if r.2.2 then { w with fr := r.1, violated := true }
   else
-    let w := r.1
+    let w := { w with fr := r.1, outs := w.outs ++ r.2.1 }
     let asks := nbWriteAsks w.conn r.2.1
     let a := if asks then nextAns w.sched (w.conn.pending ++ r.2.1).length false else (.accept 0, w.sched)
     let x := asyncWrite w.conn r.2.1 a.1
@@ -132,7 +139,7 @@ def Wire.replay (blocking : Bool) (w : Wire) (t : Trace) : Wire := t.foldl (Wire
 
 /-- the connection before the response starts -/
 def Wire.init (proto : Proto) (sched : List SchedItem) : Wire :=
-  let (v11, ka) := match proto with | .http a c => (a, c) | _ => (false, false)
-  { proto, http := { isHttp11 := v11, clientKeepAlive := ka }, sched }
+  let v := match proto with | .http a c => (a, c) | _ => (false, false)
+  { fr := { proto, http := { isHttp11 := v.1, clientKeepAlive := v.2 } }, sched }
 
 end Cppcms.C03
